@@ -5,7 +5,7 @@ From Coq Require Import String List NArith ZArith Bool Lia ZifyN ZifyNat ZifyBoo
 From J5V.lib Require Import Outcome Json JsonPrint Base64 Civil Decimal.
 From J5V.model Require Import CodecTypes CodecEnc CodecEncSpec CodecEncDec.
 From J5V.model Require CodecDecScalar CodecDec CodecDecTree.
-From J5V.proofs Require Import CodecEncProofs CodecEncDecProofs CodecEncTotal CodecEncDecTie.
+From J5V.proofs Require Import CodecEncProofs CodecEncDecProofs CodecEncTotal CodecEncDecTie CodecEncLex.
 Import ListNotations.
 Local Open Scope N_scope.
 
@@ -97,6 +97,24 @@ Theorem C01_full_statement_dec :
                     equiv_root any_inner raw_dec env root m m').
 Proof. exact codec_full_dec. Qed.
 Print Assumptions C01_full_statement_dec.
+(* ... and on the encoder's TEXT through the decoder family's byte-level model: the tokenizer
+   Json.lex reads print J as exactly the tokens of J (C01_tokenizer_reads_print), and
+   CodecDec.decode_bytes on those bytes is tr_decode on J (that family's decode_bytes_tree). *)
+Theorem C01_full_statement_bytes :
+  forall fmt_float any_inner (orc : CodecDecScalar.oracles) env,
+    oneofs_flat env -> oneof_names_ok env -> env_items_ok env ->
+    float_text_ok fmt_float -> orc_float_ok fmt_float orc -> orc_time_ok orc -> orc_decimal_ok orc ->
+    inner_ok any_inner ->
+    forall root m, rep_root any_inner env root m ->
+      exists txt J, encode fmt_float any_inner env root m = Ok txt /\ txt = print J /\ wfb J = true /\
+        (CodecDecTree.jdepth J <= CodecDec.max_scan_depth ->
+         exists m', CodecDec.decode_bytes orc env root txt = Ok m' /\
+                    equiv_root any_inner raw_dec env root m m').
+Proof. exact codec_full_bytes. Qed.
+Print Assumptions C01_full_statement_bytes.
+Theorem C01_tokenizer_reads_print : forall J, wfb J = true -> lex (print J) = (tokens_of J, false).
+Proof. exact lex_print. Qed.
+Print Assumptions C01_tokenizer_reads_print.
 Theorem C01_dec_premises_satisfiable :
   float_text_ok inst_fmt /\ orc_float_ok inst_fmt inst_orc /\ orc_time_ok inst_orc /\ orc_decimal_ok inst_orc.
 Proof. exact orc_premises_satisfiable. Qed.
